@@ -280,6 +280,7 @@ func main() {
 	r := ev.New("C15", "model_checking",
 		"width: every document of the HTML forest grammar (<=2 nodes over the full label set, <=3 (quick) / <=4 (thorough) nodes over 14 representative labels), and every line sequence "+
 			"of the gemtext/Markdown/plaintext grammars (<=2 / <=3 lines), rendered through object.GetMarkup at 16 widths {1..13,79,80,81}; "+
+			"7 texts built under the four media types in every order of two and three, each compared with the markup's own renderer called directly; "+
 			"15 kinds of white space between words (no-break, narrow no-break, figure, thin, ideographic, zero-width, line separator, tab, word joiner ...; raw and as character references) in paragraphs, list entries, quotations and link labels of the four markups at every width 1..40; "+
 			"histories: explicit-state search over the render cache: state = last rendered width, transition = Render(w), all width sequences of length <=2 (quick) / <=3 (thorough) over {1,3,80,81,200} on the complete "+
 			"small document spaces, each result compared byte-for-byte with a fresh parse; nine large documents (code listings of 40/200/700 lines in HTML and Markdown, 300 paragraphs, gemtext and plain listings) at widths 60/80/100 with 3 (quick) / 11 (thorough) short histories that repeat a width; ten documents whose attribute values or text imitate an over-long escape sequence; distinct_nontrivial = documents with at least one rendered line break or link")
@@ -290,6 +291,12 @@ func main() {
 			MediaType string `json:"mediaType"`
 		}
 		key := ev.LoadReplay(*ev.FlagReplay, &d)
+		if strings.HasPrefix(key, "same-text:") {
+			r.Eval(sameTextPart(r))
+			r.Distinct("a")
+			r.Distinct("b")
+			r.Finish()
+		}
 		if strings.Contains(key, ":large:") {
 			largePart(r) // the large documents are generated, not stored: run the part whole
 			r.Eval(1)
@@ -355,6 +362,7 @@ func main() {
 		}
 	}
 	r.Eval(spacesPart(r))
+	r.Eval(sameTextPart(r))
 	// histories
 	type hres struct {
 		n      int64
